@@ -390,10 +390,20 @@ def parse_function(body):
                 f.params.append((k.strip(), t.strip()))
                 f.locals[k.strip()] = t.strip()
     else:
-        m = re.match(r"^(const|static(?: mut)?) (.*?): (.*) = \{$", head)
+        m = re.match(r"^(const|static(?: mut)?) (.*) = \{$", head)
         if not m:
             return None
-        f.kind, f.name, f.ret, f.params = "const", m.group(2), m.group(3), []
+        rest = m.group(2)
+        depth, cut = 0, None
+        for i, ch in enumerate(rest):
+            if ch == "<": depth += 1
+            elif ch == ">" and rest[i - 1] not in "-=": depth -= 1
+            elif ch == ":" and depth == 0 and rest[i:i + 2] == ": " and rest[i - 1] != ":":
+                cut = i
+                break
+        if cut is None:
+            return None
+        f.kind, f.name, f.ret, f.params = "const", rest[:cut], rest[cut + 2:], []
     cur = None
     for ln in body[1:-1]:
         s = ln.strip()
